@@ -124,6 +124,34 @@ def main(argv=None):
     ctx = mp.get_context("fork")
     with ctx.Pool(min(a.jobs, len(jobs))) as pool:
         results = pool.map(_run_unit, jobs, chunksize=1)
+        # Dependency closure (properties about the whole call tree, see props.CLOSED_OVER_CALLEES):
+        # a caller is checked against its callees' contracts, so the no-escape argument of such a
+        # property also needs every contract applied at a call site to be discharged.  Callee
+        # units not tagged with the property are run as dependencies; of their obligations only
+        # the safety kinds can become violations of THIS property (verdict.DEP_KINDS).
+        from vlib import props as _props
+        if a.prop in _props.CLOSED_OVER_CALLEES:
+            have = {n for _, n in units}
+            while True:
+                new = []
+                for r in results:
+                    for cn in r.get("callees", []):
+                        if cn in have:
+                            continue
+                        try:
+                            c = reg.by_name(cn)
+                        except KeyError:
+                            continue
+                        if c.trusted:
+                            continue
+                        have.add(cn)
+                        new.append(cn)
+                if not new:
+                    break
+                more = pool.map(_run_unit, [("pyvc", n, timeout_ms, seed) for n in new], chunksize=1)
+                for r in more:
+                    r["dependency"] = True
+                results.extend(more)
     from vlib import verdict
     return verdict.conclude(a.prop, tier, seed, results, time.time() - t0, reg)
 
